@@ -179,7 +179,10 @@ LeafTok == [
   nm1  |-> <<"int", -1, 0>>, nm2 |-> <<"int", -2, 0>>,
   h    |-> <<"rat", 1, 2>>,  mt  |-> <<"rat", -2, 3>>, q34 |-> <<"rat", 3, 4>>,
   pi   |-> <<"cst", 1, 0>>,
-  xt   |-> <<"sym", 5, 0>>       \* a function of the variable t, x(t): to the model one more independent value
+  xt   |-> <<"sym", 5, 0>>,      \* a function of the variable t, x(t): to the model one more independent value
+  \* floating-point literals (1e-10, 2.5e20, 0.5, 8.85e-10): to the generator named constants; the harness builds
+  \* Float leaves and the recorded programs carry their exact decimal values
+  f10  |-> <<"cst", 10, 0>>, f20 |-> <<"cst", 11, 0>>, fh |-> <<"cst", 12, 0>>, fs |-> <<"cst", 13, 0>>
 ]
 OpTok == [
   add2 |-> <<"add", 2, 0>>,  add3 |-> <<"add", 3, 0>>,
@@ -193,7 +196,9 @@ OpTok == [
   \* operator nodes (uninterpreted, congruent): d/dt, integral dt, sum and product over k = 1..n, factorial,
   \* sum and product over the index i of indexed symbols
   ddt  |-> <<"fn", 20, 1>>,  int  |-> <<"fn", 21, 1>>, sumk |-> <<"fn", 22, 1>>, prodk |-> <<"fn", 23, 1>>,
-  fact |-> <<"fn", 24, 1>>,  isum |-> <<"fn", 25, 1>>, iprod |-> <<"fn", 26, 1>>
+  fact |-> <<"fn", 24, 1>>,  isum |-> <<"fn", 25, 1>>, iprod |-> <<"fn", 26, 1>>,
+  \* dense matrices of shape 2x3, 3x2, 1x3, 3x1 (elements in reading order)
+  mat23 |-> <<"fn", 27, 6>>, mat32 |-> <<"fn", 28, 6>>, mat13 |-> <<"fn", 29, 3>>, mat31 |-> <<"fn", 30, 3>>
 ]
 Tok(name) == IF name \in DOMAIN LeafTok THEN LeafTok[name] ELSE OpTok[name]
 ASSUME LeafNames \subseteq DOMAIN LeafTok /\ OpNames \subseteq DOMAIN OpTok
@@ -207,12 +212,16 @@ Point == PointOf(P, PointSeed, 1, 5)
 
 Init == stack = <<>> /\ prog = <<>>
 
-Push(l) == /\ Len(prog) + 1 + Len(stack) <= MaxLen        \* room to combine it afterwards
+\* the largest arity available, and the least number of further nodes that reduce n stack entries to one
+MaxAr == LET S == {TArity(OpTok[o]) : o \in OpNames} \cup {2} IN CHOOSE m \in S : \A x \in S : x <= m
+Need(n) == IF n <= 1 THEN 0 ELSE ((n - 1) + (MaxAr - 2)) \div (MaxAr - 1)
+
+Push(l) == /\ Len(prog) + 1 + Need(Len(stack) + 1) <= MaxLen        \* room to combine it afterwards
            /\ stack' = StepTok(P, Point, LeafTok[l], stack)
            /\ prog' = Append(prog, l)
 
 Apply(o) == /\ Len(stack) >= TArity(OpTok[o])
-            /\ Len(prog) + 1 + (Len(stack) - TArity(OpTok[o])) <= MaxLen
+            /\ Len(prog) + 1 + Need(Len(stack) - TArity(OpTok[o]) + 1) <= MaxLen
             /\ stack' = StepTok(P, Point, OpTok[o], stack)
             /\ prog' = Append(prog, o)
 
@@ -228,8 +237,9 @@ Sqrt == "sqrt" \in OpNames /\ Apply("sqrt")
 PowG == "pow" \in OpNames /\ Apply("pow")
 Func == \E o \in OpNames \cap {"exp", "sin", "log", "f2", "g1"} : Apply(o)
 Oper == \E o \in OpNames \cap {"ddt", "int", "sumk", "prodk", "fact", "isum", "iprod"} : Apply(o)
+Matr == \E o \in OpNames \cap {"mat23", "mat32", "mat13", "mat31"} : Apply(o)
 
-Next == Leaf \/ AddN \/ MulN \/ Neg \/ Div \/ PowI \/ PowR \/ Sqrt \/ PowG \/ Func \/ Oper
+Next == Leaf \/ AddN \/ MulN \/ Neg \/ Div \/ PowI \/ PowR \/ Sqrt \/ PowG \/ Func \/ Oper \/ Matr
 
 Spec == Init /\ [][Next]_vars
 
